@@ -5,17 +5,27 @@ This file contains functions for some linear algebra and basic operations of
 torch.tensor.
 """
 
-def tallqr(V, MV=None):
-    # faster QR for tall and skinny matrix
+def tallqr(V, M=None):
+    # QR for tall and skinny matrix, V = Q R with Q^H M Q = I
     # V: (*BV, na, nguess)
-    # MV: (*BM, na, nguess) where M is the basis to make Q M-orthogonal
-    # if MV is None, then MV=V
-    if MV is None:
-        MV = V
-    VTV = torch.matmul(V.transpose(-2, -1), MV)  # (*BMV, nguess, nguess)
-    R = torch.linalg.cholesky(VTV.transpose(-2, -1).conj()).transpose(-2, -1).conj()  # (*BMV, nguess, nguess)
-    Rinv = torch.inverse(R)  # (*BMV, nguess, nguess)
-    Q = torch.matmul(V, Rinv)
+    # M: LinearOperator (*BM, na, na), the metric to make Q M-orthonormal.
+    # if M is None, then M=I
+    # The Householder QR is used because it stays stable if some columns of V
+    # are (nearly) linearly dependent, where the Cholesky decomposition of
+    # V^H M V loses the orthogonality or fails.
+    Q, R = torch.linalg.qr(V)  # (*BV, na, nguess) and (*BV, nguess, nguess)
+    # make the diagonal of R non-negative, so the leading columns of V that
+    # are already orthonormal are not changed
+    d = torch.diagonal(R, dim1=-2, dim2=-1)  # (*BV, nguess)
+    sgn = torch.where(d == 0, torch.ones_like(d), torch.sgn(d))
+    Q = Q * sgn.unsqueeze(-2)
+    R = sgn.conj().unsqueeze(-1) * R
+    if M is not None:
+        # Q^H M Q is as well-conditioned as M
+        QMQ = torch.matmul(Q.transpose(-2, -1).conj(), M.mm(Q))  # (*BMV, nguess, nguess)
+        R2 = torch.linalg.cholesky(QMQ).transpose(-2, -1).conj()  # (*BMV, nguess, nguess)
+        Q = torch.matmul(Q, torch.inverse(R2))
+        R = torch.matmul(R2, R)
     return Q, R
 
 def to_fortran_order(V):
